@@ -543,6 +543,47 @@ def F36():
         return f"update_all(unset_tags=<generator of 'a'>, unset_fields=iter(['x'])) returned {n} and left tags {p.tags}, fields {p.fields}"
 
 
+def F37():
+    import shutil
+    d = tempfile.mkdtemp()
+    try:
+        db = TinyFlux(os.path.join(d, "db.csv"), auto_index=False)
+        db.insert_multiple([Point(time=t(i), tags={"k": str(i)}, fields={"a": i}) for i in range(5)])
+        seen = []
+        for q in db:
+            seen.append(q.tags["k"])
+            len(db)                       # any storage-backed read inside the loop
+        db.close()
+        if seen != ["0", "1", "2", "3", "4"]:
+            return f"`for p in db: len(db)` on a CSV database of 5 points (no index) yielded only {seen}: reads share the one file handle with a running iteration"
+    finally:
+        shutil.rmtree(d, ignore_errors=True)
+
+
+def F38():
+    a = datetime(3000, 1, 1, tzinfo=timezone.utc)
+    b = a + timedelta(microseconds=1)
+    db = TinyFlux(storage=MemoryStorage)
+    db.insert_multiple([Point(time=a, tags={"k": "a"}), Point(time=b, tags={"k": "b"})])
+    n = db.count(TimeQuery() == a)
+    ts = db.get_timestamps()
+    if n != 1 or ts != [a, b]:
+        return (f"two points one microsecond apart in the year 3000: count(TimeQuery() == t) through the index is {n}, get_timestamps() gives "
+                f"{[x.isoformat() for x in ts]} (the index keeps float seconds, which stop resolving microseconds around the year 2242)")
+
+
+def F39():
+    db = TinyFlux(storage=MemoryStorage)
+    db.insert(Point(time=t(0), measurement="", tags={"k": "e"}))
+    db.insert(Point(time=t(1), measurement="x", tags={"k2": "x"}))
+    h = db.measurement("")
+    seen = [p.measurement for p in h.all()]
+    n = h.count(TagQuery().noop())
+    if seen != [""] or n != 1:
+        return (f"db.measurement('') is not restricted to the measurement named '': all() returns points of {seen}, count(noop) = {n}; remove / update "
+                f"through it act on every measurement (every filter in database.py is written `if measurement:`)")
+
+
 ALL = [k for k in list(globals()) if re.fullmatch(r"F\d+[a-c]?", k)]
 
 if __name__ == "__main__":
